@@ -133,13 +133,23 @@ func runC19(r *mc.Run) {
 	tPem, fPem := wf("T.pem", world.PEM(T.Root)), wf("F.pem", world.PEM(F.Root))
 	notPem := wf("notpem.txt", []byte("hello"))
 	os.Mkdir(filepath.Join(dir, "adir"), 0o755)
+	// bundles with the same file name in different directories
+	os.MkdirAll(filepath.Join(dir, "vendor-a"), 0o755)
+	os.MkdirAll(filepath.Join(dir, "vendor-b"), 0o755)
+	sameF, sameT, sameBad := filepath.Join(dir, "vendor-a", "root.pem"), filepath.Join(dir, "vendor-b", "root.pem"), filepath.Join(dir, "adir", "root.pem")
+	os.WriteFile(sameF, world.PEM(F.Root), 0o600)
+	os.WriteFile(sameT, world.PEM(T.Root), 0o600)
+	os.WriteFile(sameBad, []byte("hello"), 0o600)
 	rootFlags := []struct {
 		name   string
 		arg    string
 		trusts bool
 		bad    bool
 	}{{"T", tPem, true, false}, {"unset", "", false, false}, {"F", fPem, false, false}, {"missing", filepath.Join(dir, "nope.pem"), false, true},
-		{"directory", filepath.Join(dir, "adir"), false, true}, {"not-pem", notPem, false, true}, {"T,F", tPem + "," + fPem, true, false}}
+		{"directory", filepath.Join(dir, "adir"), false, true}, {"not-pem", notPem, false, true}, {"T,F", tPem + "," + fPem, true, false},
+		{"F,T", fPem + "," + tPem, true, false}, {"T,T", tPem + "," + tPem, true, false},
+		{"same-name:F,T", sameF + "," + sameT, true, false}, {"same-name:T,not-pem", sameT + "," + sameBad, false, true},
+		{"T,not-pem", tPem + "," + notPem, false, true}, {"T,missing", tPem + "," + filepath.Join(dir, "nope.pem"), false, true}}
 	rootCfgs := []struct {
 		name   string
 		apply  func(rot *ccpb.RootOfTrust)
